@@ -348,3 +348,126 @@ Section Mev.
     rewrite ln_logit_p by (try apply Rnz_true; assumption). reflexivity.
   Qed.
 End Mev.
+
+(* ------------------------------------------------------------------ endogenous sampling *)
+Lemma es_h_inv util lg cr H :
+  es_h util lg cr = Ok H ->
+  keys H = keys util /\
+  (forall k h, In (k, h) H -> exists v g c, In (k, v) util /\ lg k = Ok g /\ cr k = Ok c /\ h = padd (padd v g) c).
+Proof.
+  unfold es_h. intros E. apply mapM_inv in E.
+  induction E as [|[k v] [k' h] util H E0 E IH]; simpl.
+  - split; [reflexivity|tauto].
+  - simpl in E0. destruct (lg k) as [g|] eqn:Eg; simpl in E0; [|discriminate].
+    destruct (cr k) as [c|] eqn:Ec; simpl in E0; [|discriminate].
+    injection E0 as <- <-. destruct IH as [IH1 IH2]. split; [simpl; congruence|].
+    intros k0 h0 [[= <- <-]|Hin].
+    + exists v, g, c. split; [now left|]. repeat split; assumption.
+    + destruct (IH2 k0 h0 Hin) as (v0 & g0 & c0 & H1 & H2 & H3 & H4). exists v0, g0, c0. split; [now right|auto].
+Qed.
+
+Lemma es_h_ok util lg cr :
+  (forall k, In k (keys util) -> exists g c, lg k = Ok g /\ cr k = Ok c) -> exists H, es_h util lg cr = Ok H.
+Proof.
+  intros Hg. apply mapM_ok. intros [k v] Hin.
+  destruct (Hg k) as (g & c & Eg & Ec); [now apply (In_keys util k v)|]. simpl. rewrite Eg, Ec. simpl. eauto.
+Qed.
+
+Section EndogenousSampling.
+  Variable Phi : R -> R.
+  Variable en : env.
+  Notation ev e := (evalX Phi e en).
+  Notation pvx p := (pvX Phi en p).
+
+  Lemma logmev_es_value util lg cr av aval hval H :
+    es_h util lg cr = Ok H ->
+    av_ok Phi en av aval -> av_covers av (keys util) ->
+    (forall k h, In (k, h) H -> aval k <> 0 -> pvx h = XR (hval k)) ->
+    forall i ch, In i (keys util) -> pvx ch = XR (IZR i) ->
+      logmev_es_f util lg cr av ch = Ok (loglogit_e H av ch) /\
+      ev (loglogit_e H av ch)
+        = (if Rnz (aval i) then XR (hval i - ln (den aval hval (keys util))) else XmInf) /\
+      ev (EUn Exp (loglogit_e H av ch)) = XR (logit_p aval hval (keys util) i).
+  Proof.
+    intros EH Hav Hcov HH i ch Hi Hch. destruct (es_h_inv _ _ _ _ EH) as [Hk _].
+    split; [unfold logmev_es_f; rewrite EH; reflexivity|]. rewrite <- Hk in *. split.
+    - now apply ev_loglogit_e.
+    - now apply ev_logit_e.
+  Qed.
+
+  (* the MEV model with endogenous-sampling correction is a proper distribution, for arbitrary
+     ln G_i and correction terms *)
+  Theorem mev_es_proper util (lg cr : Z -> res pv) av aval :
+    NoDup (keys util) ->
+    av_ok Phi en av aval -> av_covers av (keys util) ->
+    (forall k, In k (keys util) -> exists g c, lg k = Ok g /\ cr k = Ok c) ->
+    (forall k v g c, In (k, v) util -> lg k = Ok g -> cr k = Ok c -> aval k <> 0 ->
+                     exists x y z, pvx v = XR x /\ pvx g = XR y /\ pvx c = XR z) ->
+    (exists k, In k (keys util) /\ aval k <> 0) ->
+    exists p,
+      (forall i ch, In i (keys util) -> pvx ch = XR (IZR i) ->
+         exists l, logmev_es_f util lg cr av ch = Ok l /\
+                   ev (EUn Exp l) = XR (p i) /\
+                   ev l = (if Rnz (aval i) then XR (ln (p i)) else XmInf)) /\
+      is_distribution (keys util) aval p.
+  Proof.
+    intros Hnd Hav Hcov Hlg Hval Hex.
+    destruct (es_h_ok util lg cr Hlg) as [H EH].
+    destruct (es_h_inv _ _ _ _ EH) as [Hk Hin].
+    set (hval := fun k => xR (pvx (getd p_zero H k))).
+    assert (HH : forall k h, In (k, h) H -> aval k <> 0 -> pvx h = XR (hval k)).
+    { intros k h Hkh Ha. unfold hval, getd.
+      rewrite (In_get_nodup H k h) by (rewrite ?Hk; assumption).
+      destruct (Hin k h Hkh) as (v & g & c & Hv & Hg & Hc & ->).
+      destruct (Hval k v g c Hv Hg Hc Ha) as (x & y & z & Hx & Hy & Hz).
+      destruct (pvX_padd_def Phi en v g x y Hx Hy) as [w Hw].
+      destruct (pvX_padd_def Phi en _ c w z Hw Hz) as [w' Hw']. rewrite Hw'. reflexivity. }
+    exists (logit_p aval hval (keys util)). split; [|now apply logit_distribution].
+    intros i ch Hi Hch.
+    destruct (logmev_es_value util lg cr av aval hval H EH Hav Hcov HH i ch Hi Hch) as (E1 & E2 & E3).
+    exists (loglogit_e H av ch). split; [assumption|]. split; [assumption|].
+    rewrite E2. destruct (Rnz (aval i)) eqn:E; [|reflexivity].
+    rewrite ln_logit_p by (try apply Rnz_true; assumption). reflexivity.
+  Qed.
+
+  (* with one and the same correction for every alternative the model is the MEV model *)
+  Theorem mev_es_equal_corrections (U : dict expr) (lg cr : Z -> res pv) av aval (uval gval : Z -> R) (c0 : R) :
+    av_ok Phi en av aval -> av_covers av (keys U) ->
+    (forall k e, In (k, e) U -> aval k <> 0 -> ev e = XR (uval k)) ->
+    (forall k g, lg k = Ok g -> aval k <> 0 -> pvx g = XR (gval k)) ->
+    (forall k c, cr k = Ok c -> aval k <> 0 -> pvx c = XR c0) ->
+    forall i ch l l', In i (keys U) -> pvx ch = XR (IZR i) ->
+      logmev_es_f (pe_dict U) lg cr av ch = Ok l -> logmev_f (pe_dict U) lg av ch = Ok l' ->
+      ev l = ev l' /\ ev (EUn Exp l) = ev (EUn Exp l').
+  Proof.
+    intros Hav Hcov HU Hg Hc i ch l l' Hi Hch E E'.
+    assert (Hkeys : keys (pe_dict U) = keys U) by apply keys_dmap.
+    unfold logmev_es_f in E. destruct (es_h (pe_dict U) lg cr) as [H|] eqn:EH; [|discriminate].
+    unfold logmev_f in E'. destruct (mev_h (pe_dict U) lg) as [H'|] eqn:EH'; [|discriminate].
+    simpl in E, E'. injection E as <-. injection E' as <-.
+    destruct (es_h_inv _ _ _ _ EH) as [Hk Hin]. destruct (mev_h_inv _ _ _ EH') as [Hk' Hin'].
+    set (h' := fun k => uval k + gval k).
+    assert (HH' : forall k h, In (k, h) H' -> aval k <> 0 -> pvx h = XR (h' k)).
+    { intros k h Hkh Ha. destruct (Hin' k h Hkh) as (v & g & Hv & Hgk & ->).
+      apply In_dmap in Hv as (e & He & ->). apply pvX_padd_PE_l; [now apply (HU k e)|now apply Hg]. }
+    assert (HH : forall k h, In (k, h) H -> aval k <> 0 -> pvx h = XR (h' k + c0)).
+    { intros k h Hkh Ha. destruct (Hin k h Hkh) as (v & g & c & Hv & Hgk & Hck & ->).
+      apply In_dmap in Hv as (e & He & ->).
+      assert (H1 : pvx (padd (PE e) g) = XR (h' k)) by (apply pvX_padd_PE_l; [now apply (HU k e)|now apply Hg]).
+      destruct g; cbn [padd to_e] in *; (apply pvX_padd_PE_l; [exact H1|now apply (Hc k)]). }
+    rewrite <- Hkeys in Hi, Hcov.
+    pose proof Hi as Hi1. rewrite <- Hk in Hi1. pose proof Hcov as Hc1. rewrite <- Hk in Hc1.
+    pose proof Hi as Hi2. rewrite <- Hk' in Hi2. pose proof Hcov as Hc2. rewrite <- Hk' in Hc2.
+    rewrite (ev_loglogit_e Phi en aval (fun k => h' k + c0) H av ch i Hav Hc1 HH Hch Hi1).
+    rewrite (ev_logit_e Phi en aval (fun k => h' k + c0) H av ch i Hav Hc1 HH Hch Hi1).
+    rewrite (ev_loglogit_e Phi en aval h' H' av ch i Hav Hc2 HH' Hch Hi2).
+    rewrite (ev_logit_e Phi en aval h' H' av ch i Hav Hc2 HH' Hch Hi2).
+    rewrite Hk, Hk'.
+    assert (Hs : forall k, In k (keys (pe_dict U)) -> aval k <> 0 -> (fun k0 => h' k0 + c0) k = h' k + c0)
+      by reflexivity.
+    split.
+    - destruct (Rnz (aval i)) eqn:Ea; [|reflexivity]. f_equal. apply Rnz_true in Ea.
+      exact (loglogit_shift aval h' (fun k => h' k + c0) (keys (pe_dict U)) c0 i Hs Hi Ea).
+    - f_equal. exact (logit_p_shift aval h' (fun k => h' k + c0) (keys (pe_dict U)) c0 i Hs Hi).
+  Qed.
+End EndogenousSampling.
